@@ -354,6 +354,8 @@ def run_check(tier, seed):
     tb = None
     try:
         t = vfs_src.generate(REPO, COQ, write_if_changed); tb = Tables(t)
+        for e_ in t.get('errors', []): broken.append({'kind': 'translator', 'item': 'props/vfs_src.py', 'error': e_})
+        ev.cov['translator_assumed_shapes'] = [m['name'] + ': ' + m['vfs']['shape'] for m in t['methods'] if m['vfs'] and str(m['vfs'].get('shape', '')).startswith('assumed')]
     except vfs_src.TranslateError as ex:
         broken.append({'kind': 'translator', 'item': 'props/vfs_src.py', 'error': str(ex)})
     audit = std_audit(ev, PROP, broken)
